@@ -513,7 +513,7 @@ def attribute_scans(ctx):
             elif 'add_module' in fid_:
                 tags = ['C15', 'C02']
             elif 'type_definition::build' in fid_ and 'statements' in what:
-                tags = ['C01', 'C07', 'C20', 'C04']
+                tags = ['C01', 'C07', 'C20', 'C04', 'C06']
             elif 'type_definition::build' in fid_:
                 tags = ['C02', 'C03', 'C17', 'C15']
             else:
